@@ -94,12 +94,13 @@ Print Assumptions C08_registry_fastpath_refuted.
 
 (* byteslicepool (Get / append / Resize / Put), current tree (Get clears the whole capacity of a
    recycled slice): for EVERY initial memory content, EVERY schedule by any number of callers -
-   including callers that shrink their slice before putting it back - and every choice of
+   including callers that shrink their slice before putting it back, and callers that keep their
+   original slice after a growing Resize and put it back later (the defer idiom) - and every choice of
    sync.Pool, each byte a caller sees through its slice is zero or a byte it wrote itself since its
    Get. *)
 Theorem C08_byteslicepool_no_carry : forall mincap h0 es s t x,
   brun Fixed mincap (binit h0) es = Some s ->
-  In x (visible s t) -> x = 0%N \/ In x (written t es []).
+  In x (visible s t) -> x = 0%N \/ In x (written es (fun _ => []) t).
 Proof. exact byteslicepool_no_carry. Qed.
 Print Assumptions C08_byteslicepool_no_carry.
 
@@ -116,7 +117,7 @@ Print Assumptions C08_byteslicepool_exact.
    caller - which has written nothing - saw [0;7;7] after Get + Resize(3). *)
 Theorem C08_byteslicepool_shrink_put_refuted :
   exists mincap es s, brun Original mincap (binit (fun _ _ => 0%N)) es = Some s /\
-                      visible s 1 = [0; 7; 7]%N /\ written 1 es [] = [].
+                      visible s 1 = [0; 7; 7]%N /\ written es (fun _ => []) 1 = [].
 Proof. exact byteslicepool_shrink_put_refuted. Qed.
 Print Assumptions C08_byteslicepool_shrink_put_refuted.
 
@@ -152,6 +153,15 @@ Theorem C08_parser_stateless : forall R (parse : Z -> list N -> R) es s0,
     ps_results s0 ++ map (fun e => (fst e, parse (ps_options s0) (snd e))) es.
 Proof. exact (fun R parse es s0 => parser_stateless parse es s0). Qed.
 Print Assumptions C08_parser_stateless.
+
+(* A one-entry cache whose key and value live in two separately written cells (not in the tree:
+   cron's Parse loads the location on every call) can answer a look-up of key 1 with the value of
+   key 2 - every single access being atomic. *)
+Theorem C08_split_cache_refuted :
+  exists keys ts s, crun keys (mkC None None (fun _ => CStart)) ts = Some s /\
+                    keys 2 = 1%Z /\ c_pc s 2 = CRet 2%Z.
+Proof. exact split_cache_refuted. Qed.
+Print Assumptions C08_split_cache_refuted.
 
 (* The boolean oracle evaluated on the implementation's observations decides the spec. *)
 Theorem C08_oracle_sound : forall c,
